@@ -137,10 +137,13 @@ def on_disk_matches(m, bag, label):
     return ''
 
 
-def _step_case(n0, slots, cmd, a, b, top_sticky):
+def _step_case(n0, slots, cmd, a, b, top_sticky, lone=False):
     """inductive step: pre-state of n0 entries described by ``slots`` (a number in mixed radix), then one command"""
     with rt.untraced():
-        rt.begin(('step', n0, slots, cmd, a, b, top_sticky))
+        if lone and cmd not in (0, 5):
+            rt.begin()
+            return rt.ok()
+        rt.begin(('step', n0, slots, cmd, a, b, top_sticky, lone))
         e = scen.env()
         nodes = base_world(top_sticky)
         bag = Bag()
@@ -161,15 +164,27 @@ def _step_case(n0, slots, cmd, a, b, top_sticky):
             date = fmt_date(day)
             nodes += K.trashed(td, tname, K.quote(pv), date, 'file' if j != 1 else 'dir', 2000 + 20 * j)
             bag.items.append((path, date.replace('T', ' ')))
+        lone_info = None
+        if lone:
+            # what an interrupted earlier trash-put leaves: info/<name>.trashinfo without files/<name>, under the very
+            # name the next put of <name> would like to use; trash-list shows it, the put must not take it away
+            d = DIRS[a % 3]
+            vol = '/h' if d.startswith('/h') else '/v'
+            td = '/h/.local/share/Trash' if vol == '/h' else ('/v/.Trash/1000' if top_sticky else '/v/.Trash-1000')
+            ghost = d + '/ghost'
+            lone_info = td + '/info/' + NAMES[b % 4] + '.trashinfo'
+            nodes += [W.d(td, 0o700), W.d(td + '/files', 0o700), W.d(td + '/info', 0o700),
+                      W.f(lone_info, K.info_text(K.quote(ghost if vol == '/h' else ghost[3:]), fmt_date(0)), 0o600, 2900)]
+            bag.items.append((ghost, fmt_date(0).replace('T', ' ')))
         m = W.build_model(W.W(mounts=K.MOUNTS, cwd='/', nodes=nodes))
-        label = 'cmd=%d' % cmd
+        label = 'cmd=%d' % cmd + (':lone-info-under-the-wanted-name' if lone else '')
         x = check_list(m, bag, e, 'pre-state', label)
         if x:
             return x
         x = apply_cmd(m, bag, e, cmd, a, b, 5, 1)
         if x:
             return x
-        x = check_list(m, bag, e, 'after command', label) or on_disk_matches(m, bag, label)
+        x = check_list(m, bag, e, 'after command', label) or (None if lone else on_disk_matches(m, bag, label))
         if x:
             return x
         return rt.ok()
@@ -195,22 +210,22 @@ def _hist_case(c0, c1, c2, a, b):
         return rt.ok()
 
 
-def w_step(n0: int, slots: int, cmd: int, a: int, b: int, top_sticky: bool) -> str:
+def w_step(n0: int, slots: int, cmd: int, a: int, b: int, top_sticky: bool, lone: bool) -> str:
     """
     pre: PARTITION is None or cmd == PARTITION
     pre: 0 <= n0 <= 3 and 0 <= slots < 120 and 0 <= cmd < 6 and 0 <= a < 3 and 0 <= b < 4
     post: _ == ''
     """
-    return _step_case(rt.sel(n0, 4), rt.sel(slots, 120), rt.sel(cmd, 6), rt.sel(a, 3), rt.sel(b, 4), rt.selb(top_sticky))
+    return _step_case(rt.sel(n0, 4), rt.sel(slots, 120), rt.sel(cmd, 6), rt.sel(a, 3), rt.sel(b, 4), rt.selb(top_sticky), rt.selb(lone))
 
 
-def w_step_q(n0: int, slots: int, cmd: int, a: int, b: int) -> str:
+def w_step_q(n0: int, slots: int, cmd: int, a: int, b: int, lone: bool) -> str:
     """
     pre: PARTITION is None or cmd == PARTITION
     pre: 0 <= n0 <= 3 and 0 <= slots < 40 and 0 <= cmd < 6 and 0 <= a < 3 and 0 <= b < 2
     post: _ == ''
     """
-    return _step_case(rt.sel(n0, 4), rt.sel(slots, 40) * 3, rt.sel(cmd, 6), rt.sel(a, 3), rt.sel(b, 2), True)
+    return _step_case(rt.sel(n0, 4), rt.sel(slots, 40) * 3, rt.sel(cmd, 6), rt.sel(a, 3), rt.sel(b, 2), True, rt.selb(lone))
 
 
 def w_hist(c0: int, c1: int, c2: int, a: int, b: int) -> str:
